@@ -18,6 +18,7 @@ type c18Backend struct {
 	Active   string   `json:"active,omitempty"`   // last response posted for it (never decides liveness)
 	Rereg    bool     `json:"rereg,omitempty"`    // had an earlier life under the same ID (polled, answered, deleted); Seen is "never"
 	Repolled string   `json:"repolled,omitempty"` // "overwrite"/"delete": registered and polled, registered again seconds later (after a delete), then polled as Seen says
+	Usurped  bool     `json:"usurped,omitempty"`  // registered for agent A, who polled; registered again for agent B; A polled again since, B never: Seen is "never"
 }
 
 type c18Hist struct {
@@ -181,6 +182,9 @@ func c18Why(cfg *c18Config, user, path, got string) string {
 		return "wrong-backend:shorter-prefix-chosen"
 	}
 	if !c18Live(b.Seen) {
+		if b.Usurped {
+			return "wrong-backend:not-live-chosen:only-its-former-agent-polled"
+		}
 		if b.Active == "fresh" || b.Active == "4m" {
 			return "wrong-backend:not-live-chosen:response-posted-recently"
 		}
@@ -267,6 +271,42 @@ func c18Generate(r *core.Run) []c18Config {
 		cfgs = append(cfgs, c18Config{I: len(cfgs), Backends: bs, Orders: c18Orders(rng, len(bs), maxOrders)})
 	}
 	quick := r.Quick()
+	// first (it is the slowest): a configuration with more than 500 backends for one user (thorough: also more than
+	// 500 shared ones); the most specific matches sort late in key order, a less specific one sorts early
+	{
+		var bs []c18Backend
+		for i := 0; i < 505; i++ {
+			b := c18Backend{ID: fmt.Sprintf("big-p%04d", i), EndUser: "u2@example.com", Prefixes: []string{fmt.Sprintf("/zz%d/", i)}, Seen: "never"}
+			switch i {
+			case 3:
+				b.Prefixes, b.Seen = []string{"/"}, "fresh"
+			case 501:
+				b.Prefixes, b.Seen = []string{"/a"}, "fresh"
+			case 503:
+				b.Prefixes, b.Seen = []string{"/a/b"}, "fresh"
+			}
+			bs = append(bs, b)
+		}
+		nShared := 3
+		if !quick {
+			nShared = 506
+		}
+		for i := 0; i < nShared; i++ {
+			b := c18Backend{ID: fmt.Sprintf("big-s%04d", i), EndUser: "allUsers", Prefixes: []string{fmt.Sprintf("/yy%d/", i)}, Seen: "never"}
+			switch i {
+			case 1:
+				b.Prefixes, b.Seen = []string{"/"}, "4m"
+			case nShared - 1:
+				b.Prefixes, b.Seen = []string{"/b", "/a/"}, "fresh"
+			}
+			bs = append(bs, b)
+		}
+		order := make([]int, len(bs))
+		for i := range order {
+			order[i] = i
+		}
+		cfgs = append(cfgs, c18Config{I: 0, Backends: bs, Orders: [][]int{order}})
+	}
 	// one backend, exhaustive: end user x single prefix x liveness
 	for _, eu := range c18EndUsers {
 		for _, p := range c18PrefixesEsc {
@@ -277,6 +317,10 @@ func c18Generate(r *core.Run) []c18Config {
 				for _, a := range c18Active { // last poll x last posted response, exhaustive
 					add([]c18Backend{{EndUser: eu, Prefixes: []string{p}, Seen: s, Active: a}}, 1)
 				}
+			}
+			// registered for another agent account since its (former) agent last polled; the former agent polls on
+			if len(p) <= 3 {
+				add([]c18Backend{{EndUser: eu, Prefixes: []string{p}, Seen: "never", Usurped: true}}, 1)
 			}
 			// registered, polled, answered, deleted, registered again: never polled in its present life
 			add([]c18Backend{{EndUser: eu, Prefixes: []string{p}, Seen: "never", Active: "fresh", Rereg: true}}, 1)
@@ -394,7 +438,7 @@ func c18Generate(r *core.Run) []c18Config {
 
 // C18 — routing to the most specific live backend.
 func C18(r *core.Run) {
-	r.SetRule("bounded-exhaustive comparison of LookupBackend (real caching+persistent store over a fake datastore/memcache) with an independent longest-prefix specification: 1-4 backends, prefix lists (1-3, duplicates) over {/, /a, /a/, /a/b, /ab, /b, \"\", /données/, \"/a b/\", /50%/}, endUser in {u1 (a mixed-case address, upper-case domain), u2, allUsers}, a third of the configurations (and every one sent through the client handler) registered through POST /api/backends instead of the store interface, last poll in {fresh,4m,6m,1h,never} x last posted response in {none,fresh,4m,6m} (dated independently; posted through the real store), backends with an earlier life under the same ID (registered, polled, answered, deleted, registered again = never polled), backends registered, polled and registered again within seconds (directly or after a delete) before their present poll, users {u1,u2,u3} x 12 paths (including non-ASCII, space, percent and one that arrives with an encoded slash, %2F; the request path is the decoded one), every/many insertion orders, each lookup repeated; sample through the client HTTP handler, including three-step histories (a cacheable GET answered by the one admissible backend; that backend deleted / its last poll aged past the window / registered for another end user; the same GET again); class = (#backends, candidate source user/shared/none, #candidates, longest match length, tie size, liveness of the longest class, more specific shared backend present)")
+	r.SetRule("bounded-exhaustive comparison of LookupBackend (real caching+persistent store over a fake datastore/memcache) with an independent longest-prefix specification: 1-4 backends, prefix lists (1-3, duplicates) over {/, /a, /a/, /a/b, /ab, /b, \"\", /données/, \"/a b/\", /50%/}, endUser in {u1 (a mixed-case address, upper-case domain), u2, allUsers}, a third of the configurations (and every one sent through the client handler) registered through POST /api/backends instead of the store interface, last poll in {fresh,4m,6m,1h,never} x last posted response in {none,fresh,4m,6m} (dated independently; posted through the real store), backends with an earlier life under the same ID (registered, polled, answered, deleted, registered again = never polled), backends registered again for another agent account while only the former agent keeps polling (through /agent/pending; must be turned away and must not keep the backend live), one configuration with 520 private backends of one user and 510 shared ones (most specific matches late in key order), backends registered, polled and registered again within seconds (directly or after a delete) before their present poll, users {u1,u2,u3} x 12 paths (including non-ASCII, space, percent and one that arrives with an encoded slash, %2F; the request path is the decoded one), every/many insertion orders, each lookup repeated; sample through the client HTTP handler, including three-step histories (a cacheable GET answered by the one admissible backend; that backend deleted / its last poll aged past the window / registered for another end user; the same GET again); class = (#backends, candidate source user/shared/none, #candidates, longest match length, tie size, liveness of the longest class, more specific shared backend present)")
 	r.Assume("ties and a non-live member of the longest-prefix class admit 404 or any live member; liveness margins are >= 60 s from the 5-minute boundary; 'never seen' is the state right after registration; a backend is live iff its agent listed pending requests within the window - a posted response never counts; a request answered without being queued for any backend (GET cache replay) is admissible only where some backend is admissible for that user and path; last-seen ages are produced by ageing the time-valued properties written when the backend's pending list is read")
 	bin := r.MustBuild(e3Build(r))
 	cfgs := c18Generate(r)
